@@ -464,6 +464,11 @@ func (g *gen) enumDecl(stem, under string, forcePlainIota bool) *Decl {
 			switch under {
 			case "string":
 				v = fmt.Sprintf("%q", strings.ToLower(memberWords[(i*3)%len(memberWords)])+fmt.Sprint(i))
+				if i == 0 && g.pr(0.2) {
+					// characters outside the basic multilingual plane (and a few inside it)
+					v = fmt.Sprintf("%q", "mood 😀 é ☀ "+fmt.Sprint(i))
+					g.p.Feature("enum:string-value-with-non-bmp-characters")
+				}
 				if i == 2 && g.pr(0.25) {
 					// longer than the 72 characters go/constant prints in its short form
 					v = fmt.Sprintf("%q", "https://example.org/scopes/"+strings.Repeat("very-long-segment/", 4)+fmt.Sprint(i))
@@ -1210,6 +1215,44 @@ func (g *gen) makeStructs() {
 		}})
 		g.structs = append(g.structs, d)
 		g.p.Feature("field:only-union-field-gomacro-ignore-alone")
+	}
+	if g.opts.Unions && g.pr(0.3) {
+		// a union declared in the other file and reached ONLY through a field encoding/json does
+		// not see (unexported or json:"-"): the shadow struct of the wrappers still names it
+		un := g.add(&Decl{Name: g.fresh("Layout" + g.pick(unionStems)), Kind: DUnion, File: "other.go"})
+		un.Marker = "is" + un.Name
+		m := g.add(&Decl{Name: g.fresh(un.Name + "Grid"), Kind: DStruct, File: "other.go", Fields: []*Field{{Name: "Cols", Type: Basic("int")}}})
+		m.Impls = append(m.Impls, &Impl{Union: un})
+		var other *Decl
+		if len(g.unions) > 0 {
+			other = g.unions[0]
+		}
+		hidden := &Field{Name: "layout", Type: Ref(un)}
+		if g.pr(0.5) {
+			hidden = &Field{Name: "Layout", Type: Ref(un), Tag: `json:"-"`}
+		}
+		fields := []*Field{{Name: "Title", Type: Basic("string")}, hidden}
+		if other != nil {
+			fields = append(fields, &Field{Name: "Body", Type: Ref(other)})
+		}
+		d := g.add(&Decl{Name: g.fresh("Page" + g.pick(typeStems)), Kind: DStruct, Fields: fields})
+		g.structs = append(g.structs, d)
+		g.p.Feature("union-reached-only-through-a-non-serialised-field")
+	}
+	if g.opts.Embedded && len(g.structs) > 0 && g.pr(0.3) {
+		// an embedded struct whose EMBEDDING carries a tag (options only: still flattened by
+		// encoding/json); its own field tags must survive the promotion
+		base := g.add(&Decl{Name: g.fresh("Base" + g.pick(typeStems)), Kind: DStruct, Fields: []*Field{
+			{Name: g.fresh("Loaded"), Type: Map(Basic("string"), Basic("int")), Tag: `json:"-" gomacro-data:"ignore"`},
+			{Name: g.fresh("Stamped"), Type: Basic("int"), Tag: `gomacro-data:"ignore"`},
+			{Name: g.fresh("Kept"), Type: Basic("string"), Tag: `json:"kept_base"`},
+		}})
+		d := g.add(&Decl{Name: g.fresh("Inline" + g.pick(typeStems)), Kind: DStruct, Fields: []*Field{
+			{Embedded: true, Type: Ref(base), Tag: `json:",omitempty"`},
+			{Name: "Own", Type: Basic("int")},
+		}})
+		g.structs = append(g.structs, d)
+		g.p.Feature("embedded-struct-with-a-tag-on-the-embedding")
 	}
 	if g.opts.PtrFields && len(g.structs) > 0 {
 		// pointer fields (accepted by the Go generators only): to a leaf struct, to a basic,
